@@ -1824,8 +1824,8 @@ bool TypeChecker::checkExpression(expression_t expr)
     }
 
     case EXIT: {
-        assert(temp);
-        if (!temp->dynamic) {
+        // no template at all in global functions and queries
+        if (!temp || !temp->dynamic) {
             handleError(expr, "Exit can only be used in templates declared as dynamic");
             return false;
         }
